@@ -358,7 +358,7 @@ def session_plans(tree, seed, tier):
     """The answer for a selection must not depend on what the generator was asked before on the
     same machine.  Each session is 2-4 invocations whose selections overlap, grow, shrink or
     repeat; between invocations some headers may be touched (newer mtime, same bytes)."""
-    n = 8 if tier == "quick" else 80
+    n = 24 if tier == "quick" else 200
     tcs = all_toolchains()
     out = []
     for i in range(n):
